@@ -203,6 +203,11 @@ class Exec:
         M = (1 << bits) - 1
         if a.concrete() and b.concrete():
             return I(a.term | b.term, bits)
+        if not (a.concrete() and b.concrete()) and a.ub <= 1 and b.ub <= 1:
+            cond = f"(or (= {smt(a.term)} 1) (= {smt(b.term)} 1))"
+            r = self.define("or01", f"(ite {cond} 1 0)", bits, 1)
+            r.note = ("b2i", cond)
+            return r
         # (x & mask) | (y & !mask): a two-way selection
         if isinstance(a.note, tuple) and isinstance(b.note, tuple) and a.note[0] == "sel" and b.note[0] == "sel" \
                 and (b.note[1] == f"(not {a.note[1]})" or a.note[1] == f"(not {b.note[1]})"):
@@ -397,6 +402,8 @@ class Exec:
             r = self.wrap("wsub", self.sub(args[0], args[1]), b, lb=-args[1].ub, tub=args[0].ub)
             if args[0].concrete() and args[0].term == 0 and isinstance(args[1].note, tuple) and args[1].note[0] == "b2i":
                 r.note = ("mask", args[1].note[1])  # 0 - (bool as W): 0 or 2^W - 1
+            elif args[0].concrete() and args[0].term == 0 and not args[1].concrete() and args[1].ub <= 1:
+                r.note = ("mask", f"(= {smt(args[1].term)} 1)")  # 0 - v with v in {0,1}
             return r
         if f.endswith("WrappingMul>::wrapping_mul"):
             t, ub = self.mul(args[0], args[1])
@@ -448,6 +455,14 @@ class Exec:
             r = self.wrap("shl", f"(* {smt(args[0].term)} {1 << k})", b, tub=args[0].ub << k)
             r.note = ("shl", k)
             return r
+        mcmp = re.search(r" as (?:std::cmp::)?Partial(Ord|Eq)>::(gt|ge|lt|le|eq|ne)$", f)
+        if mcmp:
+            sy = {"gt": ">", "ge": ">=", "lt": "<", "le": "<=", "eq": "=", "ne": "distinct"}[mcmp.group(2)]
+            a, b = args[0], args[1]
+            if a.concrete() and b.concrete():
+                return B({"gt": a.term > b.term, "ge": a.term >= b.term, "lt": a.term < b.term, "le": a.term <= b.term,
+                          "eq": a.term == b.term, "ne": a.term != b.term}[mcmp.group(2)])
+            return B(f"({sy} {smt(a.term)} {smt(b.term)})")
         if f.endswith("From<bool>>::from"):
             return self.cast(args[0], tb())
         if re.search(r"AsPrimitive<.*>>::as_$", f):
